@@ -36,8 +36,14 @@ def _always_exits(stmts: list[ast.stmt]) -> bool:
     return False
 
 
-def path_condition(node: ast.AST, func: ast.AST):
-    """[(test_expr, polarity)] literals that hold when ``node`` executes (within func)."""
+def _ends_in_raise(stmts) -> bool:
+    return bool(stmts) and isinstance(stmts[-1], ast.Raise)
+
+
+def path_condition(node: ast.AST, func: ast.AST, sibling_validations: bool = False):
+    """[(test_expr, polarity)] literals that hold when ``node`` executes (within func).
+    Negations of preceding sibling `if ...: raise` validations are unrelated checks and are
+    left out unless ``sibling_validations``."""
     lits = []
     child = node
     p = getattr(node, "_parent", None)
@@ -51,6 +57,8 @@ def path_condition(node: ast.AST, func: ast.AST):
                 # there they are unrelated validations, irrelevant to this guard's own meaning)
                 for s in (block[:idx] if p is not func else []):
                     if isinstance(s, ast.If) and _always_exits(s.body) and not s.orelse:
+                        if _ends_in_raise(s.body) and not sibling_validations:
+                            continue
                         lits.append((s.test, False))
                     elif isinstance(s, ast.If) and s.orelse and _always_exits(s.orelse) and not _always_exits(s.body):
                         lits.append((s.test, True))
@@ -265,7 +273,7 @@ def rule_guards(rep: Report, repo: Repo):
             if e != exc or names is None:
                 continue
             proj = project(names, rows, atoms)
-            if proj is not None and proj == want:
+            if proj is not None and proj == want and set(names) == set(atoms):
                 found = r
                 break
         inst = f"{mod}::{q} guard `{gid}`: {what} -> {exc}"
@@ -316,16 +324,24 @@ def rule_h0_block_diagonal(rep: Report, repo: Repo):
             return ("symbolic", pol)
         return None
     names = ["same", "lower", "hermitian", "nonzero", "symbolic"]
+    # atoms the table does not know are extra conjuncts/disjuncts: they are quantified universally,
+    # so a guard that depends on them cannot match the required table
+    extra = []
+    for t, _pol in lits:
+        for a in bool_atoms(t):
+            if classify(a) is None and canon_atom(a)[0] not in extra:
+                extra.append(canon_atom(a)[0])
     ok = True
     bad_row = None
-    for vals in product([False, True], repeat=5):
-        env = dict(zip(names, vals))
+    for vals in product([False, True], repeat=5 + len(extra)):
+        env = dict(zip(names + extra, vals))
         if env["same"] and env["lower"]:
             continue
         def atom(n):
             c = classify(n)
             if c is None:
-                raise AnalysisError(R, f"atom `{norm(n)}` of the block-diagonality guard not understood")
+                t, pol = canon_atom(n)
+                return env[t] if pol else not env[t]
             return env[c[0]] if c[1] else not env[c[0]]
         fires = all(eval_bool(t, atom) == pol for t, pol in lits)
         skip = env["same"] or (env["hermitian"] and env["lower"])
